@@ -25,6 +25,13 @@ class StartStagePlannerMixin:
         """
         Plan the stage - build tasks and before stages.
         """
+        # A previous planning of this same stage (it was re-armed by a jump, or is
+        # re-planned after a restart) copied ancestor outputs into the context.
+        # Those copies are not values set on the stage itself: drop them, so that the
+        # ancestors' current outputs are seen instead of the previous iteration's.
+        for key in stage.context.pop("_hydrated_keys", None) or []:
+            stage.context.pop(key, None)
+
         # Hydrate context with ancestor outputs
         # This ensures tasks have access to upstream data even with partial loading
         ancestor_outputs = self.repository.get_merged_ancestor_outputs(stage.execution.id, stage.ref_id)
@@ -43,6 +50,7 @@ class StartStagePlannerMixin:
             ancestor_outputs.update(apply_output_reducers(reducers, branch_outputs))
 
         merged = ancestor_outputs
+        hydrated_keys = [key for key in merged if key not in stage.context]
         for key, value in stage.context.items():
             if key in reducers:
                 # A reducer produced the authoritative value for this key;
@@ -57,6 +65,8 @@ class StartStagePlannerMixin:
             else:
                 merged[key] = value
 
+        if hydrated_keys:
+            merged["_hydrated_keys"] = hydrated_keys
         stage.context = merged
 
         # Get builder
